@@ -11,7 +11,7 @@ use deno_ast::swc::ast::BinaryOp::{EqEq, EqEqEq, NotEq, NotEqEq};
 use deno_ast::swc::ast::Expr::{Lit, Tpl, Unary};
 use deno_ast::swc::ast::Lit::Str;
 use deno_ast::swc::ast::UnaryOp::TypeOf;
-use deno_ast::swc::ecma_visit::{noop_visit_type, Visit};
+use deno_ast::swc::ecma_visit::{noop_visit_type, Visit, VisitWith};
 use deno_ast::SourceRangedForSpanned;
 
 #[derive(Debug)]
@@ -61,6 +61,9 @@ impl Visit for ValidTypeofVisitor<'_, '_> {
   noop_visit_type!();
 
   fn visit_bin_expr(&mut self, bin_expr: &BinExpr) {
+    // the operands may contain comparisons of their own
+    bin_expr.visit_children_with(self);
+
     if !bin_expr.is_eq_expr() {
       return;
     }
